@@ -939,6 +939,13 @@ func runC04(a vh.Args, o *vh.Oracle, r *vh.Result) error {
 		if err := readJSON(a.Replay, &c); err != nil {
 			return err
 		}
+		if c.Kind == "header" {
+			var hc c04Header
+			if err := readJSON(a.Replay, &hc); err != nil {
+				return err
+			}
+			return c04RunHeader(a, r, &hc, 0)
+		}
 		if c.Kind == "overlap" {
 			var oc c04Overlap
 			if err := readJSON(a.Replay, &oc); err != nil {
@@ -1101,6 +1108,9 @@ func runC04(a vh.Args, o *vh.Oracle, r *vh.Result) error {
 		return err
 	}
 	if err := c04Overlaps(a, r, rng); err != nil {
+		return err
+	}
+	if err := c04Headers(a, r, rng); err != nil {
 		return err
 	}
 	return c04CLI(a, o, r, rng)
